@@ -34,6 +34,18 @@ def gen_cases(ctx, rng):
             cases.append({"dir": rng.choice(["upstream", "downstream"]), "chain": [], "src": src, "horizon": 3600 * 1000 * L.MS, "seed": i,
                           "ops": [{"at": 0, "op": "add", "toxic": L.tx("reset_peer", name="r", timeout=T)}], "reset_T": T})
             stats["reset_peer"] += 1
+    # the timeout of a reset_peer toxic updated on a connection that is open and has not yet seen data or a close in the toxic's direction:
+    # the wait that the first data-or-close starts lasts the updated timeout
+    stats["reset_timeout_updated"] = 0
+    for i in range(10 if ctx.tier == "quick" else 200):
+        T1, T2 = rng.choice([(100, 1500), (3000, 100), (40, 600), (600, 0), (0, 250)])
+        first = rng.range(300, 900) * L.MS + 7
+        src = [{"at": first, "n": rng.range(1, 400)}, {"at": first + rng.range(1, 50) * L.MS, "n": 10}, {"at": first + 9000 * L.MS, "close": True}] if i % 3 else \
+              [{"at": first, "close": True}]
+        cases.append({"dir": rng.choice(["upstream", "downstream"]), "chain": [], "src": src, "horizon": 3600 * 1000 * L.MS, "seed": 4000 + i,
+                      "ops": [{"at": 0, "op": "add", "toxic": L.tx("reset_peer", name="r", timeout=T1)},
+                              {"at": rng.range(20, 250) * L.MS, "op": "update", "name": "r", "body": '{"attributes": {"timeout": %d}}' % T2}], "reset_T": T2})
+        stats["reset_timeout_updated"] += 1
     # several connections through the same slow_close toxic at once, their senders closing at different instants: every close is
     # withheld for the delay counted from THAT connection's close
     stats["shared_by_connections"] = 0
